@@ -13,6 +13,15 @@ Every c18.bf case is also compared with the MIRROR of the (repaired) brute force
 None-ness and same number of axes for every k; equality of the returned partition is only counted.  The mirror is run
 with the order in which CPython iterates the L-sets (observed by calling /repo's get_L_sets in the worker) as its order
 parameter.  Case c18.algo (m = 9..14): implementation against the mirror only.
+Case  c18.hist  payload [pre, alts, rankings, mults, script, flags]   (round-5 lessons: purity, aliasing, lifetime)
+   One worker call: first the calls of `pre` on OTHER instances ([alts', rankings', kind, k] with overlapping ids:
+   another m / a profile solved with one axis / a call answering None), then ONE instance object for the profile under
+   test, built with the variations of `flags` (bit 1: instance.orders reversed and instance.multiplicity rebuilt in
+   another key order; bit 2: numpy.int64 ids; bit 4: recompute_cardinality_param(), flatten_strict(), full_profile()
+   called - and their results poisoned - before and between the calls), then the calls of `script` ([0] = approx,
+   [1, k] = brute force with k) on that same object.  After every call common.snapshot / snap_diff must report no
+   change of the instance, the returned partition (outer list and every axis) is poisoned in place, and EVERY answer is
+   judged against the model of the ORIGINAL profile (c18.check / c18.bf).
 rankings : flat strict complete rankings (distinct), storage order; mults : multiplicities (>= 1).
 Defect KF-C18-a (from m = 6 on the brute force was not minimum: pairs only inside one L-set) was found by this check and
 repaired in /repo by 175f7ec; its 77 failing inputs are kept in corpus/C18/fixed-175f7ec-bruteforce-not-minimum.json."""
@@ -31,6 +40,10 @@ RULE = ("approx (seed-dependent): exhaustive small sets (below); random / plante
         "10 000 (thorough 23 000) seed-dependent profiles, m = 6-8 (thorough 6-9), odd and even m; the corpus (77 inputs of "
         "the repaired defect KF-C18-a, the cap defect 07cd506) runs first; every brute-force case is also compared with "
         "the mirror bf_algo, and 150 (thorough 1 200) seed-dependent profiles with m = 9-13 (thorough 9-14) with the mirror only. "
+        "histories (900, thorough 6 000, m <= 7): calls on other instances with overlapping ids first, then approx / brute "
+        "force (several k, repeated) on ONE instance object with decoupled storage order / numpy.int64 ids / maintenance "
+        "calls in between, instance snapshot compared and the returned partition poisoned after every call, every "
+        "answer judged against the model of the original profile. "
         "non-trivial = reference optimum >= 2 axes")
 EXHAUSTIVE = {"quick": "both functions: all sets of 1-2 distinct strict orders over m<=3, with the ids 1..m and with the ids 0..m-1; brute force: every set of <= 3 strict "
                        "orders over m = 4 and m = 5 containing the identity ranking (= every profile of <= 3 orders up to "
@@ -59,7 +72,8 @@ COVER_FILES = ["properties/subdomains/ordinal/singlepeaked/k_alternative_partiti
 COVER_TIMEOUT_S = 60
 TIMEOUT_S = 120.0
 CHUNK = 4
-THEOREMS_FOR_OP = {"c18.algo": "bf_algo_ok / bf_sound / bf_complete_min (mirror Model/PartitionAlgo.v)",
+THEOREMS_FOR_OP = {"c18.hist": "partition_check_correct / brute_force_ok_correct (every call of a history on one object)",
+                   "c18.algo": "bf_algo_ok / bf_sound / bf_complete_min (mirror Model/PartitionAlgo.v)",
                    "c18.approx": "partition_check_correct / check_valid_bound",
                    "c18.bf": "brute_force_ok_correct / min_partition_correct / partition_check_correct"}
 REF_MAX_M = 8      # the reference optimum is run up to this size
@@ -284,6 +298,35 @@ def generate(tier, seed):
         c["payload"][3] = sorted({1, 2, 3, rng.randint(1, m), (m + 1) // 2, m + 1})
         out.append(c)
 
+    # ---- histories on one instance object, after calls on other instances (purity / aliasing / object lifetime)
+    for i in range(900 if not thorough else 6000):
+        m = rng.randint(1, 7) if i % 4 else rng.choice([5, 6, 7])
+        alts = rand_ids(rng, m)
+        votes, mults, style = mixed_votes(rng, i, m, alts)
+        pre = []
+        for j in range(rng.randint(0, 3)):
+            kind = rng.randrange(4)
+            m2 = max(1, m + rng.choice([-2, -1, 0, 1, 2]))
+            pool = list(alts) + [a for a in rand_ids(rng, m2 + 1) if a not in alts]
+            alts2 = rng.sample(pool, m2) if kind != 3 else list(alts)   # overlapping ids, kind 3: the same ids
+            if kind == 1:      # solved with one axis
+                v2 = distinct(planted(rng, alts2, 1, rng.randint(1, 3)))
+                pre.append([alts2, v2, rng.randrange(2), rng.randint(1, m2)])
+            elif kind == 2:    # typically answers None: k = 1 on unrelated random votes
+                v2 = distinct([rand_perm(rng, alts2) for _ in range(3)])
+                pre.append([alts2, v2, 1, 1])
+            else:
+                v2, _, _ = mixed_votes(rng, rng.randrange(6), m2, alts2)
+                pre.append([alts2, v2, rng.randrange(2), rng.randint(1, m2 + 1)])
+        script = []
+        for j in range(rng.randint(2, 6)):
+            script.append([0] if rng.random() < 0.35 else [1, rng.choice([1, 1, 2, 2, 3, (m + 1) // 2, m, m + 1])])
+        if rng.random() < 0.5:
+            script = script + script[:2]                      # the same calls again
+        flags = rng.randrange(8)
+        out.append(case("c18.hist", [pre, rand_perm(rng, alts), [list(r) for r in votes], list(mults), script, flags],
+                        m=m, style=style, flags=flags))
+
     # ---- approx with the reference optimum (m <= REF_MAX_M), seed-dependent
     nref = 900 if not thorough else 7000
     mmax = 7 if not thorough else 8
@@ -344,7 +387,84 @@ def _axes(v):
     return out
 
 
+def _poison(part):
+    """spoil a returned partition in place: every axis and the outer list"""
+    if isinstance(part, list):
+        for ax in part:
+            if isinstance(ax, list):
+                ax.append(-7)
+                ax.reverse()
+                ax.insert(0, ax[-1])
+        part.append([-7, -8])
+        part.reverse()
+
+
+def _build(alts, rankings, mults, flags):
+    """the instance for the profile, with the storage variations selected by flags"""
+    import numpy as np
+    conv = (lambda a: np.int64(a)) if flags & 2 else (lambda a: a)
+    inst = ordinal_instance([([[conv(a)] for a in r], (np.int64(mu) if flags & 2 else mu)) for r, mu in zip(rankings, mults)],
+                            data_type="soc", alts=[conv(a) for a in alts])
+    if flags & 1 and len(inst.orders) > 1:
+        keys = list(inst.multiplicity.keys())
+        keys = keys[1:] + keys[:1]
+        inst.multiplicity = {k: inst.multiplicity[k] for k in keys}      # another key order
+        inst.orders.reverse()                                            # and another list order
+    return inst
+
+
+def _maintenance(inst):
+    inst.recompute_cardinality_param()
+    fs = inst.flatten_strict()
+    fp = inst.full_profile()
+    fs.append(((-1,), 1))
+    fs.reverse()
+    fp.append(((-1,),))
+    fp.reverse()
+
+
+def impl_hist(c):
+    from preflibtools.properties.subdomains.ordinal.singlepeaked import k_alternative_partition as KP
+    from .common import snapshot, snap_diff
+    pre, alts, rankings, mults, script, flags = c["payload"]
+    for alts2, v2, kind, k2 in pre:
+        i2 = ordinal_instance([(strict(r), 1) for r in v2], data_type="soc", alts=list(alts2))
+        r = guarded(KP.k_alternative_partition_brut_force, i2, k2) if kind else guarded(KP.k_alt_partition_approx, i2)
+        if r[0] != 0:
+            return [1, r[1], "preliminary call"] + r[2:]
+        _poison(r[1])
+    inst = _build(alts, rankings, mults, flags)
+    if flags & 4:
+        _maintenance(inst)
+    out = []
+    for step in script:
+        before = snapshot(inst)
+        if step[0] == 0:
+            r = guarded(KP.k_alt_partition_approx, inst)
+        else:
+            r = guarded(KP.k_alternative_partition_brut_force, inst, step[1])
+        if r[0] != 0:
+            return [1, r[1], "step %r" % (step,)] + r[2:]
+        d = snap_diff(before, snapshot(inst))
+        if d:
+            return {"crash": "the call %s changed the instance: %s"
+                             % ("k_alt_partition_approx" if step[0] == 0 else "k_alternative_partition_brut_force(k=%d)" % step[1], d)}
+        if r[1] is None:
+            out.append([])
+        else:
+            ax = _axes(r[1])
+            if ax is None:
+                return {"crash": "step %r returned %r" % (step, r[1])}
+            out.append([ax])
+            _poison(r[1])
+        if flags & 4:
+            _maintenance(inst)
+    return [0, out]
+
+
 def impl(c):
+    if c["op"] == "c18.hist":
+        return impl_hist(c)
     from preflibtools.properties.subdomains.ordinal.singlepeaked import k_alternative_partition as KP
     alts, rankings, mults = c["payload"][0], c["payload"][1], c["payload"][2]
     if sys.gettrace() is not None and len(alts) > 12:
@@ -392,6 +512,16 @@ def oracle_requests(c, r):
         if okr:
             reqs.append(("c18.check", [alts, rankings, r[1]]))
         return reqs
+    if c["op"] == "c18.hist":
+        alts, rankings, script = c["payload"][1], c["payload"][2], c["payload"][4]
+        if not okr:
+            return [("c18.min", [alts, rankings])]
+        bf = [[st[1], res] for st, res in zip(script, r[1]) if st[0] == 1]
+        reqs.append(("c18.bf", [alts, rankings, bf]))
+        for st, res in zip(script, r[1]):
+            if res:
+                reqs.append(("c18.check", [alts, rankings, res[0]]))
+        return reqs
     if c["op"] == "c18.algo":
         if okr:
             reqs.append(("c18.bf_algo", [alts, rankings, [k for k, _ in r[1]], r[2]]))
@@ -426,6 +556,8 @@ def judge(c, r, mres):
                     "reason": "model: checker accepts %d axes but min_partition = %d (contradicts check_valid_bound)"
                               % (len(r[1]), mn)}
         return None
+    if c["op"] == "c18.hist":
+        return judge_hist(c, r, mres)
     if c["op"] == "c18.algo":
         return judge_mirror(r, mres[0])
     mn, oks = mres[0]
@@ -455,6 +587,30 @@ def judge(c, r, mres):
     return judge_mirror(r, mres[1])
 
 
+def judge_hist(c, r, mres):
+    """every answer of the history is judged against the model of the ORIGINAL profile"""
+    script = c["payload"][4]
+    mn, oks = mres[0]
+    checks = list(mres[1:])
+    bi = 0
+    for n, (st, res) in enumerate(zip(script, r[1])):
+        chk = checks.pop(0) if res else None
+        what = "call %d of the history, %s" % (n + 1, "k_alt_partition_approx" if st[0] == 0
+                                               else "k_alternative_partition_brut_force(k=%d)" % st[1])
+        if st[0] == 0:
+            if not res or chk != 1:
+                return {"kind": "mismatch", "theorem": "partition_check_correct",
+                        "reason": "%s returned %r: not a valid partition of the original profile" % (what, res[0] if res else None)}
+        else:
+            if oks[bi] != 1:
+                return {"kind": "mismatch", "theorem": "brute_force_ok_correct",
+                        "reason": "%s returned %s, which violates the second sentence for the original profile "
+                                  "(optimum %d%s)" % (what, ("%d axes %r" % (len(res[0]), res[0])) if res else "None", mn,
+                                                     "" if not res else (", checker %s" % ("accepts" if chk == 1 else "rejects")))}
+            bi += 1
+    return None
+
+
 def judge_mirror(r, algo):
     """the implementation and the mirror bf_algo (Model/PartitionAlgo.v; bf_sound / bf_complete_min talk about it) agree
     on None-ness and on the number of axes for every k; which partition is returned is only counted (stats)"""
@@ -474,6 +630,8 @@ def mirror_exact(r, algo):
 
 
 def _opt(c, r, m):
+    if c["op"] == "c18.hist":
+        return m[0][0] if m and isinstance(m[0], list) else (m[0] if m else None)
     if c["op"] == "c18.algo":
         return None
     if c["op"] == "c18.approx":
@@ -493,6 +651,14 @@ def nontrivial(c, r, m):
 
 
 def stats(c, r, m):
+    if c["op"] == "c18.hist":
+        pre, alts, rankings, mults, script, flags = c["payload"]
+        lab = ["hist m=%d" % len(alts), "hist: %d earlier instance(s)" % len(pre)]
+        lab += [t for b, t in ((1, "hist: storage order decoupled"), (2, "hist: numpy.int64 ids"),
+                               (4, "hist: maintenance calls in between")) if flags & b]
+        if isinstance(r, list) and r[0] == 0:
+            lab += ["hist answer None" if not res else "hist answer partition" for res in r[1]]
+        return lab
     alts, rankings = c["payload"][0], c["payload"][1]
     mm = len(alts)
     size = "m=%d" % mm if mm <= 8 else ("m=9-15" if mm <= 15 else "m=16-25")
@@ -540,6 +706,12 @@ def stats(c, r, m):
 
 
 def describe(c):
+    if c["op"] == "c18.hist":
+        pre, alts, rankings, mults, script, flags = c["payload"]
+        return {"earlier calls on other instances [alts, orders, 0=approx/1=brute force, k]": pre,
+                "alternatives": alts, "orders (best first)": rankings, "multiplicities": mults,
+                "calls on the one instance ([0] approx, [1, k] brute force)": script,
+                "flags (1 storage order decoupled, 2 numpy ids, 4 maintenance calls)": flags}
     alts, rankings, mults = c["payload"][0], c["payload"][1], c["payload"][2]
     d = {"function": "k_alt_partition_approx" if c["op"] == "c18.approx" else "k_alternative_partition_brut_force"
                      + (" (mirror only)" if c["op"] == "c18.algo" else ""),
@@ -550,6 +722,20 @@ def describe(c):
 
 
 def shrink(c):
+    if c["op"] == "c18.hist":
+        pre, alts, rankings, mults, script, flags = c["payload"]
+        for i in range(len(pre)):
+            yield dict(c, payload=[pre[:i] + pre[i + 1:], alts, rankings, mults, script, flags])
+        if len(script) > 1:
+            for i in range(len(script)):
+                yield dict(c, payload=[pre, alts, rankings, mults, script[:i] + script[i + 1:], flags])
+        for b in (1, 2, 4):
+            if flags & b:
+                yield dict(c, payload=[pre, alts, rankings, mults, script, flags & ~b])
+        if len(rankings) > 1:
+            for i in range(len(rankings)):
+                yield dict(c, payload=[pre, alts, rankings[:i] + rankings[i + 1:], mults[:i] + mults[i + 1:], script, flags])
+        return
     alts, rankings, mults, last = c["payload"]
     if c["op"] in ("c18.bf", "c18.algo") and len(last) > 1:
         for k in last:
